@@ -16,7 +16,7 @@ def bounds(ctx):
 def _job(item):
     pid, prog, idx, pfile, binary, workdir, klass = item
     out = dict(pid=pid, problems=[], traces=None, classes=klass["nclasses"])
-    r = smc.run(binary, pfile, idx, ["model-check/reduction:odpor"], workdir, "%s-%d" % (pid, os.getpid()), max_errors=1000, timeout=300)
+    r = smc.run(binary, pfile, idx, ["model-check/reduction:odpor"], workdir, "%s-%d" % (pid, os.getpid()), max_errors=0, timeout=300)
     if r["timeout"]:
         out["inconclusive"] = True
         return out
@@ -63,8 +63,8 @@ def run(ctx):
             if p.get("mq"):
                 continue
             ref = rs.explore(p)
-            if any("ASSERTFAIL" in ref["states"][t][0] for t in ref["terminals"]):
-                tot["skipped_failing"] += 1   # a failed assertion soft-locks a state: outside the property's quantifier
+            if any("ASSERTFAIL" in ref["states"][t][0] or rs.is_deadlock(ref["states"][t][0]) for t in ref["terminals"]):
+                tot["skipped_failing"] += 1   # the checker stops at its first report: only failure-free programs have a complete odpor exploration
                 continue
             progs.append(("%s-%d" % (name, i), p))
         kl = vxlib.run_classes(progs, "c40" + name, maxexec=maxexec, deadline=ctx.deadline.end)
@@ -110,12 +110,13 @@ def run(ctx):
         a = [_job(("x", v.case["program"], 0, pf, binary, os.path.dirname(pf), k)) for _ in range(2)]
         kinds = [sorted(x for x, _ in r["problems"]) for r in a]
         if kinds[0] != kinds[1] or v.case["kind"] not in kinds[0]:
-            common.log("C40: did not reproduce identically: %s %s" % (v.key, kinds)); raise SystemExit(2)
+            common.log("C40: a verdict of the external checker did not repeat, dropped: %s %s" % (v.key, kinds)); tot["unreproducible_dropped"] = tot.get("unreproducible_dropped", 0) + 1
+            continue
         vs.append(v)
     cov = dict(states=tot["classes"], transitions=tot["traces"], traces_validated_against_impl=tot["traces"], programs=tot["programs"],
                evaluations=tot["programs"], distinct_nontrivial=tot["nontrivial"],
                rule="every program of the bound without failing assertion: odpor's complete executions (H1 log) replayed on the kernel and compared, as Foata normal forms, with the classes of all executions; non-trivial = >=2 classes",
-               classes_total=tot["classes"], odpor_complete_executions=tot["traces"], skipped_programs_with_assertion_failure=tot["skipped_failing"],
+               classes_total=tot["classes"], odpor_complete_executions=tot["traces"], skipped_programs_with_reachable_failure=tot["skipped_failing"], unreproducible_dropped=tot.get("unreproducible_dropped", 0),
                skipped_programs_too_many_executions=tot["skipped_capped"], runs_too_slow_to_conclude=tot["inconclusive"], bounds_completed=completed, samples=samples, exhaustive=exhaustive)
     common.finish(ctx, "model_checking", cov, ["equivalence is decided with the checker's own dispatch_depends (as the statement says)", "ground truth: every complete execution enumerated by vx without any reduction"], vs, engine="E3 smc + E1 vx")
 
